@@ -353,7 +353,8 @@ def history(rng, version, length, profile):
             return w(t) + w(v) + w(i)
         st += [["in", f"{n};255;0;0;17;{version}"], ["in", f"{n};1;0;0;3;light"], ["in", f"{m};255;0;0;17;{version}"],
                ["in", f"{n};255;4;0;0;{cfgp}"],
-               ["fw", rng.choice([n, [n], [n, m], [n, 77]]), ft, fv, img],
+               # type and version as integers or as what int() turns into them (from a configuration file: "1", 1.0)
+               ["fw", rng.choice([n, [n], [n, m], [n, 77]])] + rng.choice([[ft, fv]] * 5 + [[str(ft), str(fv)], [float(ft), fv], [ft, f" {fv}"]]) + [img],
                ["in", f"{n};1;1;0;2;1"], ["in", f"{n};255;4;0;2;{blk(0)}"],
                ["in", f"{n};255;0;0;17;{version}"], ["in", f"{n};1;1;0;2;0"],
                ["in", f"{n};255;4;0;0;{cfgp}"], ["in", f"{n};255;4;0;0;{hex_payload(rng, 'cfg')}"], ["in", f"{n};255;4;0;0;{cfgp}"],
@@ -363,6 +364,12 @@ def history(rng, version, length, profile):
                ["in", f"{n};255;4;0;0;{cfgp}"],
                ["in", f"{m};255;4;0;0;{cfgp}"], ["in", f"{m};255;4;0;2;{blk(0)}"],
                ["fw", n, ft, fv, None], ["in", f"{n};255;4;0;0;{cfgp}"], ["in", f"{n};255;4;0;2;{blk(1)}"]]
+        if rng.random() < 0.3:
+            # another build under the same type and version is scheduled for the OTHER node only, after this node has
+            # started (or finished) fetching: this node's config requests stay unanswered
+            st += [["in", f"{n};255;4;0;2;{blk(0)}"], ["fw", rng.choice([m, [m]]), ft, fv, fw_image(rng)],
+                   ["in", f"{n};255;0;0;17;{version}"], ["in", f"{n};255;4;0;0;{cfgp}"], ["in", f"{m};255;4;0;0;{cfgp}"],
+                   ["in", f"{n};255;4;0;0;{cfgp}"]]
         st = [s for s in st if rng.random() < 0.9]
         if rng.random() < 0.5:
             # a malformed block request right after the first config answer (before any valid block request), then config again
